@@ -41,9 +41,9 @@ RegMap == TLCEval([nm \in AllRegNames \cup {"st"} |->
 RegOf(nm) == IF nm \in DOMAIN RegMap THEN RegMap[nm] ELSE NoReg
 GprSize(c) == CASE c = "r8" -> 8 [] c = "r16" -> 16 [] c = "r32" -> 32 [] OTHER -> 0
 \* ---------------------------------------------------------------- size keywords
-KwTab == [byte |-> 8, word |-> 16, dword |-> 32, qword |-> 64, tbyte |-> 80, xmmword |-> 128]
+KwTab == [byte |-> 8, word |-> 16, dword |-> 32, fword |-> 48, qword |-> 64, tbyte |-> 80, xmmword |-> 128]
 KwOf(sz) == CASE sz = 8 -> "byte" [] sz = 16 -> "word" [] sz = 32 -> "dword" [] sz = 64 -> "qword"
-              [] sz = 80 -> "tbyte" [] sz = 128 -> "xmmword" [] OTHER -> ""
+              [] sz = 80 -> "tbyte" [] sz = 128 -> "xmmword" [] sz = 48 -> "fword" [] OTHER -> ""
 SzOf(kw) == IF kw \in DOMAIN KwTab THEN KwTab[kw] ELSE 0
 \* ---------------------------------------------------------------- numbers
 NumVal(nu) == IF nu.neg THEN Neg(nu.mag, 32) ELSE Norm(nu.mag, 32)       \* value mod 2^32
